@@ -3,11 +3,11 @@ package main
 // C08 — CompareValues is structural equality and agrees with ranking (structural clauses).
 
 import (
-	"regexp"
 	"fmt"
 	"go/ast"
 	"go/token"
 	"go/types"
+	"regexp"
 	"sort"
 	"strings"
 
